@@ -9,7 +9,9 @@ from vf.props import common
 ID = "C01"
 RULE = ("cases = (input bytes, depth limit) from skeleton x exhaustive small-alphabet tails for every decoder, -bxor keys "
         "0..999, structured cmd/powershell invocations, valid and malformed PE images, byte arrays with -bxor, layered "
-        "wrappers with extreme depth limits, deep context nesting, mutated test literals, token soup (thorough: large "
+        "wrappers with extreme depth limits, deep context nesting, regex stress (38 repeated units x 14 prefixes x 7 suffixes x 9 "
+        "repetition counts), replacements that expand to several indicators, address-reuse histories (scan, drop and collect the "
+        "tree, allocate a shorter buffer of the same size class, scan), mutated test literals, token soup (thorough: large "
         "inputs). Each case: Multidecoder().scan + flatten + list(root) + string_summary + json.loads(tree_to_json); "
         "hang = CPU budget exceeded twice (second time alone under RLIMIT_CPU). distinct_nontrivial = distinct inputs "
         "(sha1) whose result tree has at least one node below the root.")
